@@ -187,6 +187,28 @@ def M(x, ncol=None):
     return a
 
 
+# other shapes a caller may hand to an argument documented as [n, 2]: one
+# column, three columns, a flat vector, a single number, three dimensions
+XYSHAPES = ["n2", "n2", "n2", "n1", "n3", "flat", "scalar", "3d", "empty0"]
+
+
+def reshape_xy(a, how):
+    a = np.ascontiguousarray(a, dtype=np.float64)
+    if how == "n1":
+        return np.ascontiguousarray(a[:, :1])
+    if how == "n3":
+        return np.ascontiguousarray(np.column_stack([a, a[:, :1]]))
+    if how == "flat":
+        return a.ravel()[:max(1, a.size - 1)].copy() if a.size else a.ravel()
+    if how == "scalar":
+        return float(a.ravel()[0]) if a.size else 0.0
+    if how == "3d":
+        return a.reshape(a.shape[0], a.shape[1], 1)
+    if how == "empty0":
+        return np.zeros((0,), dtype=np.float64)
+    return a
+
+
 @st.composite
 def flowgrid(draw):
     nr, nc = draw(st.integers(1, 6)), draw(st.integers(1, 6))
@@ -508,6 +530,7 @@ def geom_case(draw):
     g["csz"] = draw(st.sampled_from([1., 1., 0.5, 0.05, 0.1, 1. / 3, 0.125,
                                      1e-300, 1e300]))
     g["xll"] = draw(st.sampled_from([0., 0., -0.25, 0.3, 1e4]))
+    g["xyshape"] = draw(st.sampled_from(XYSHAPES))
     # points on the cell-edge lattice (k * cellsize) and their neighbours
     nr, nc = g["shape"]
     for _ in range(draw(st.integers(0, 4))):
@@ -554,7 +577,7 @@ def edge_points(c):
 
 @entry("Grid.coord2cell", geom_case())
 def _(c):
-    geogrid(c).coord2cell(edge_points(c))
+    geogrid(c).coord2cell(reshape_xy(edge_points(c), c.get("xyshape", "n2")))
 
 
 @entry("Grid.cell2coord+cell2rowcol", geom_case())
@@ -571,7 +594,51 @@ def _(c):
 
 @entry("Grid.slice", geom_case())
 def _(c):
-    geogrid(c).slice(edge_points(c))
+    geogrid(c).slice(reshape_xy(edge_points(c), c.get("xyshape", "n2")))
+
+
+# grids without columns and / or rows (an empty selection, a raster cropped
+# to nothing): every kernel that receives the grid size
+@st.composite
+def empty_grid_case(draw):
+    nr, nc = draw(st.sampled_from([(0, 3), (3, 0), (0, 0), (0, 1), (1, 0),
+                                   (5, 0)]))
+    return {"shape": [nr, nc],
+            "cells": draw(st.lists(st.integers(-2, 7), min_size=0,
+                                   max_size=4)),
+            "cell": draw(st.integers(-1, 5)),
+            "pts": [[draw(fval), draw(fval)]
+                    for _ in range(draw(st.integers(0, 3)))],
+            "csz": draw(st.sampled_from([1., 0.5])),
+            "which": draw(st.integers(0, 7))}
+
+
+@entry("Grid.without-rows-or-columns", empty_grid_case())
+def _(c):
+    nr, nc = c["shape"]
+    w = c["which"]
+    if w >= 5:
+        fd = Grid("fd", nc, nr, dtype=np.int64)
+        ca = Catchment("c", fd)
+        cells = A(c["cells"], np.int64)
+        if w == 5:
+            ca.upstream(cells)
+        elif w == 6:
+            ca.downstream(cells)
+        else:
+            ca.delineate_area(c["cell"], nval=10)
+        return
+    g = Grid("g", nc, nr, cellsize=c["csz"])
+    if w == 0:
+        g.cell2coord(A(c["cells"], np.int64))
+    elif w == 1:
+        g.cell2rowcol(A(c["cells"], np.int64))
+    elif w == 2:
+        g.neighbours(c["cell"])
+    elif w == 3:
+        g.coord2cell(M(c["pts"], 2))
+    else:
+        g.slice(M(c["pts"], 2))
 
 
 @entry("Grid.clip", geom_case())
@@ -581,7 +648,8 @@ def _(c):
 
 @entry("Grid.cells_inside_polygon", geom_case())
 def _(c):
-    geogrid(c).cells_inside_polygon(M(c["pts"], 2))
+    geogrid(c).cells_inside_polygon(reshape_xy(M(c["pts"], 2),
+                                               c.get("xyshape", "n2")))
 
 
 @entry("Grid.interpolate", geom_case())
@@ -718,7 +786,9 @@ def _(c):
 @entry("grid.voronoi", catch_case())
 def _(c):
     ca = delin(c)
-    voronoi(ca, M(c["pts"], 2))
+    voronoi(ca, reshape_xy(M(c["pts"], 2),
+                           XYSHAPES[(len(c["pts"]) + c["start"])
+                                    % len(XYSHAPES)]))
 
 
 @entry("grid.delineate_river", catch_case())
@@ -782,6 +852,8 @@ def pip_case(draw):
     return {"pts": [[draw(fval), draw(fval)] for _ in range(kp)],
             "poly": [[draw(fval), draw(fval)] for _ in range(kv)],
             "inside": draw(st.sampled_from(["none", "ok", "short", "long"])),
+            "ptshape": draw(st.sampled_from(XYSHAPES)),
+            "polyshape": draw(st.sampled_from(XYSHAPES)),
             "atol": draw(st.sampled_from([1e-8, 0., -1., float("nan")])),
             "nprint": draw(st.sampled_from([0, 0, 1, -1, 3]))}
 
@@ -793,6 +865,9 @@ def _(c):
     if c["inside"] != "none":
         k = len(pts) + {"ok": 0, "short": -1, "long": 1}[c["inside"]]
         ins = np.ones(max(k, 0), dtype=np.int32)
+    # (shapes other than [n, 2] for the points / the polygon)
+    pts = reshape_xy(pts, c.get("ptshape", "n2"))
+    poly = reshape_xy(poly, c.get("polyshape", "n2"))
     gutils.points_inside_polygon(pts, poly, inside=ins, atol=c["atol"],
                                  nprint=c["nprint"])
 
